@@ -18,8 +18,15 @@ CLAIMED = {
             "arbitrary value and slope give the chain-rule induction step; bounded composition families on top."),
     "C04": ("6/C04", "Reverse-mode components for every variable at once equal the textbook partials for ALL domain points, including DAG sharing "
             "and repeated variables."),
+    "C05": ("6/C05", "Both symbolic differentiation routes including the simplifier: the returned expression, evaluated symbolically, is defined on the "
+            "original's domain and equals the textbook derivative for ALL points; second order and 'no new variable' likewise. Known finding D3 is "
+            "attributed counterfactually and the affected trees are re-verified with that one rule instance disabled."),
+    "C06": ("6/C06", "All differentiation routes are executed on one symbolic point in one path and compared pairwise (kind and value) for ALL points inside "
+            "and outside the domain; structural claims are decided with the library's == under solver-checked forks. Known findings D3, D4."),
     "C07": ("6/C07", "Every numeric derivative route raises DomainError exactly where the expression is undefined, for ALL points, with undefined "
             "children in every position differentiation rules can skip; evaluator outcome cross-checked on the same path."),
+    "C08": ("6/C08", "Every rewrite step, the whole pass, the give-up clause and re-simplification: each form is evaluated symbolically and z3 decides "
+            "'defined wherever the input is, with the same value' for ALL points, per rule pattern and parameter combination. Known finding D3."),
     "C17": ("6/C17", "On every solver-feasible path of evaluation / derivative routes / as_expression the outcome is a real number, DomainError or "
             "CoordinateMissing; proxies reproduce Python's ZeroDivisionError/ValueError/complex/TypeError/KeyError behaviour."),
 }
